@@ -189,8 +189,38 @@ def gen_cases(ctx):
                 o["processes"] = 1
                 o["stopOnError"] = False
                 o.pop("layer", None)
+        if i % 10 == 3:
+            # two fixture layers that are different objects under one dotted name (made by a factory, or instances
+            # created with one name), each the base of its own layer with tests: when the second stack is entered the
+            # first fixture is not needed any more, whatever it is called
+            w = worlds.gen_world(rng, n_layers=4, tests_per_layer=(1, 2), kinds=["pass", "pass", "fail"], p_fault=0.0, p_write=0.0)
+            nonunit = [k for k, l in enumerate(w["layers"]) if l["kind"] != "unit"]
+            if len(nonunit) == 4:
+                f1, f2, x, y = nonunit
+                for k, n_ in zip(nonunit, ["Fixture", "Fixture", rng.choice(["X", "Ya"]), rng.choice(["Y", "Xa"])]):
+                    w["layers"][k].update(kind="instance", name=n_, module="wlayers", setUp=True, tearDown=True,
+                                          setUpRaises=[], tearDownFaults=[], bases=[])
+                    w["layers"][k].pop("falsy", None)
+                w["layers"][x]["bases"] = [f1]
+                w["layers"][y]["bases"] = [f2]
+                # the fixtures own no tests
+                moved = {f1: x, f2: y}
+                for t in w["tests"]:
+                    t["layer"] = moved.get(t["layer"], t["layer"])
+
+                def relayer(nodes):
+                    for n_ in nodes:
+                        if n_.get("lyr") in moved:
+                            n_["lyr"] = moved[n_["lyr"]]
+                        if n_["t"] == "node":
+                            relayer(n_["kids"])
+                for m_ in w["modules"].values():
+                    relayer(m_["suites"])
+                o["processes"] = 1
+                o["stopOnError"] = False
+                o.pop("layer", None)
         o["verbose"] = rng.choice([0, 1, 2])
-        if rng.random() < 0.2 and i % 10 != 2:
+        if rng.random() < 0.2 and i % 10 not in (2, 3):
             names = [worlds.layer_name(w, i) for i in range(len(w["layers"]))]
             o["layer"] = [rng.choice(names).split(".")[-1]]
         cases.append(cw.Case(w, o))
